@@ -55,7 +55,7 @@ type VerifLinkTrace struct {
 
 type verifPagingLogger struct{ logutil.Logger }
 
-func (verifPagingLogger) IsLogPagination() bool                  { return true }
+func (verifPagingLogger) IsLogPagination() bool                   { return true }
 func (verifPagingLogger) PrintPaginationInfo(args ...interface{}) {}
 
 // VerifPrevNextTrace runs PrevNextFinder.FindOutlink for one direction with its debug notes
